@@ -29,11 +29,12 @@ def main():
     claimed = [c["property_id"] for c in json.load(open(os.path.join(ROOT, "MANIFEST.json")))["checks"]]
     ids = claimed if ids == "all" else ids.split(",")
     # one fixed path, so that cargo re-uses its build output from one evaluation to the next
-    wt = "/tmp/seed_eval_wt"
+    tag = os.environ.get("SEED_EVAL_TAG", "")   # several evaluations side by side: each with its own mirror of /verif and its own paths
+    wt = "/tmp/seed_eval_wt" + tag
     sh(["git", "-C", "/repo", "worktree", "remove", "--force", wt])
     shutil.rmtree(wt, ignore_errors=True)
     sh(["git", "-C", "/repo", "worktree", "prune"])
-    target = "/tmp/seed_eval_target"
+    target = "/tmp/seed_eval_target" + tag
     out = {"patch": patch, "demo": demo, "verify": {}, "checks": {}}
     try:
         rc, o = sh(["git", "-C", "/repo", "worktree", "add", "-q", "--detach", wt, "HEAD"])
@@ -68,8 +69,9 @@ def main():
     finally:
         sh(["git", "-C", "/repo", "worktree", "remove", "--force", wt])
         shutil.rmtree(wt, ignore_errors=True)
-        # restore the generated parameters for the real tree
+        # restore the generated parameters and kernels for the real tree
         sh([sys.executable, os.path.join(ROOT, "tools", "extract_params.py")])
+        sh([sys.executable, os.path.join(ROOT, "tools", "rs2lean.py")])
     out["caught_by"] = [p for p, r in out["checks"].items() if r["exit"] == 1]
     if "test_output" in out["verify"]:
         out["verify"]["test_output"] = out["verify"]["test_output"][-400:]
